@@ -22,7 +22,7 @@ RULE = ("per case one generated multi-chromosome chain rGFA (1-4 chromosomes, 1-
         "(thorough up to 400), SNP / insertion / deletion / inversion / multi-segment / "
         "multi-allelic / nested bubbles, both id styles), a random --chromosome_order, --by-chrom "
         "on/off; re-run with permuted lines, on its own output, and under 1-3 other hash seeds; "
-        "thorough adds the shipped chr1 graph; an evaluation is one order_gfa run; non-trivial = "
+        "thorough adds the shipped chr1 graph; an evaluation is one chromosome component judged in one order_gfa run; non-trivial = "
         "component with >= 2 chain elements; distinct by (graph signature, order, options)")
 ASSUMPTIONS = ["domain (checked per component by the reference decomposition, not assumed): block-cut tree is a path with >= 1 articulation point, "
                "all articulation points are rank-0 nodes of one contig, ids without whitespace and > < ,",
@@ -175,7 +175,8 @@ def run_case(ctx, rng, index, casedir):
     for c in order:
         if infos[c]["in_domain"] and len(infos[c]["ro"]["chain"]) >= 2:
             sigs.append(stable_hash([gsig, c, order, by_chrom]))
-    return {"sigs": sigs, "evals": runs, "situations": dict(sit), "violations": viol,
+    # an evaluation = one chromosome component judged in one order_gfa run
+    return {"sigs": sigs, "evals": runs * len(order), "situations": dict(sit), "violations": viol,
             "sample": {"chromosomes": order, "by_chrom": by_chrom, "nodes": len(g.nodes),
                        "articulation_points": {c: infos[c]["n_artic"] for c in order},
                        "first_chain": [(t, x if t == "s" else sorted(x)) for t, x in (infos[order[0]]["ro"]["chain"] or [])[:6]]}}
